@@ -283,6 +283,17 @@ def quantifier_scopes():
     exprs += [Exists(And(Equals(w, o0), Or(Equals(w, o0), q(v))), w, v), Exists(And(Equals(w, v), p(w)), w), Exists(And(Equals(w, v), p(w)), w, v),
               Forall(Exists(And(Equals(w, v), Exists(And(q(v), p(w)), v)), w), v), Exists(Or(Equals(w, o0), q(v)), w, v),
               Exists(And(Equals(w, u), Equals(u, o1), p(w)), w, u), Exists(And(Equals(w, loc(w)), p(w)), w)]
+    # the re-binding of t's variable sits strictly INSIDE another quantifier of the remaining conjuncts (depth 2 and 3), with and without an
+    # enclosing binder of t's variable
+    for t in (v, loc(v)):
+        for Q1 in (Forall, Exists):
+            for Q2 in (Forall, Exists):
+                for inner in (And(q(v), p(w)), Or(Not(q(v)), p(w)), Or(p(v), Equals(w, v))):
+                    deep2 = Q1(Or(q(u), Q2(inner, v)), u)
+                    deep3 = Q1(And(Or(q(u), Not(q(u))), Q2(Or(p(u), Q1(inner, v)), u)), u)
+                    for deep in (deep2, deep3):
+                        core = Exists(And(Equals(w, t), deep), w)
+                        exprs += [core, Forall(core, v), Exists(And(deep, Equals(t, w)), w)]
     fvo = pr.environment.free_vars_oracle
     failures, evals = [], 0
     objs = [o0, o1]
